@@ -43,6 +43,7 @@ def check(program: Program, run: Run) -> None:
         "single wrap at the tail, with nothing but the alias suffix and the upsert clause outside the parentheses (R2); each "
         "embedding site passes the flags its position needs, and sibling clauses that can hold a subquery operand agree (R3).")
     run.rule("R1 position flags are never Inherit at a clause slot of a statement renderer")
+    run.rule("R4 (inherited from C08/R1c) a statement's own dialect policy does not depend on the context it is entered with (top-level set operation vs stand-alone)")
     run.rule("R2 incoming subquery/with_alias consumed only by the tail wrap; only alias suffix / ON CONFLICT outside the parentheses")
     run.rule("R3 embedding sites: FROM/JOIN items subquery+alias; CTE body neither; criteria, SET values, select list and IN container subquery=True")
     sites = render_sites(program)
@@ -148,3 +149,18 @@ def check(program: Program, run: Run) -> None:
     for need in ("_from", "_with", "_wheres", "_havings", "_selects", "container", "criterion", "item"):
         if need not in found:
             raise AnalysisError(f"anchor vanished: no embedding site over `{need}` found")
+
+    # ---- R4: the text of an operand must be the same stand-alone and inside a top-level set operation; that is C08/R1c
+    from . import c08
+    sub = Run("C08", run.tier)
+    c08.check(program, sub)
+    n4 = 0
+    for o in sub.obligations:
+        if o.rule.startswith("C08/R1c"):
+            n4 += 1
+            run.ob("C10/R4 (inherited from C08/R1c) operand of a top-level set operation renders as it does stand-alone", o.subject, o.ok, o.detail, o.where)
+    for fd in sub.findings:
+        if not fd.info and fd.key.startswith("C08/entry-context-drops:"):
+            run.finding("C10/entry-context:" + fd.key.split(":", 1)[1], "the same query renders differently stand-alone and as operand of a set operation: " + fd.what, where=fd.where, rule="R4 (inherited from C08/R1c)")
+    if n4 < 30:
+        raise AnalysisError(f"instance count below floor: entry-context cells {n4}")
